@@ -7,7 +7,7 @@
    The kind ladder, handler table, decorator tables and _kind_map come from Gen/C17_tables.v (regenerated each run).
    Executable definitions only. *)
 From Coq Require Import List ZArith String Ascii Bool Arith.
-From Verif Require Import Lib.Sexp Model.C02_params Model.C17_base Gen.C17_tables.
+From Verif Require Import Lib.Sexp Model.C02_kinds Model.C02_params Model.C17_base Gen.C17_tables.
 Import ListNotations.
 Open Scope string_scope.
 Open Scope list_scope.
